@@ -82,6 +82,44 @@ Proof.
   destruct (inside (strict_of sd) a b x), (inside (strict_of sd) c d x); reflexivity.
 Qed.
 
+Lemma vlog_and_self a : vlog LAnd a a = vtruth a.
+Proof. destruct a as [x|]; [|reflexivity]. unfold vlog, vtruth, log_holds. rewrite andb_diag. reflexivity. Qed.
+Lemma vlog_or_self a : vlog LOr a a = vtruth a.
+Proof. destruct a as [x|]; [|reflexivity]. unfold vlog, vtruth, log_holds. rewrite orb_diag. reflexivity. Qed.
+Lemma visna_vfill a c : visna (vfill a (Some c)) = vbool false.
+Proof. destruct a; reflexivity. Qed.
+
+(* f & f and f | f are bool(f) *)
+Theorem and_self (f : stairs) : wf f -> deq (logical LAnd f f) (make_boolean f).
+Proof.
+  intros Wf. unfold make_boolean.
+  destruct (logical_spec LAnd f f Wf Wf) as (_ & C1 & L1).
+  destruct (boolean_like_spec vtruth f Wf) as ((_ & C2 & L2) & _).
+  split.
+  - rewrite C1, C2. unfold result_side. destruct (has_steps f); reflexivity.
+  - intros sd x. rewrite L1, L2. apply vlog_and_self.
+Qed.
+
+Theorem or_self (f : stairs) : wf f -> deq (logical LOr f f) (make_boolean f).
+Proof.
+  intros Wf. unfold make_boolean.
+  destruct (logical_spec LOr f f Wf Wf) as (_ & C1 & L1).
+  destruct (boolean_like_spec vtruth f Wf) as ((_ & C2 & L2) & _).
+  split.
+  - rewrite C1, C2. unfold result_side. destruct (has_steps f); reflexivity.
+  - intros sd x. rewrite L1, L2. apply vlog_or_self.
+Qed.
+
+(* after fillna(c) with a defined c nothing is undefined: isna is the constant 0 *)
+Theorem fillna_leaves_nothing_undefined (f : stairs) (c : Qc) :
+  wf f -> forall sd x, lim sd (isna (fillna_scalar f (Some c))) x = vbool false.
+Proof.
+  intros Wf sd x. unfold isna.
+  destruct (fillna_scalar_spec f (Some c) Wf) as ((W1 & _ & L1) & _).
+  destruct (null_comparison_spec visna _ W1) as ((_ & _ & L2) & _).
+  rewrite L2, L1. apply visna_vfill.
+Qed.
+
 End MaskAlgebraFacts.
 
 Print Assumptions invert_twice.
@@ -89,3 +127,6 @@ Print Assumptions invert_isna.
 Print Assumptions fillna_scalar_idempotent.
 Print Assumptions clip_idempotent.
 Print Assumptions clip_commutes.
+Print Assumptions and_self.
+Print Assumptions or_self.
+Print Assumptions fillna_leaves_nothing_undefined.
